@@ -12,7 +12,9 @@ theorem C07_span (H : Bytes → Bytes) (inp : Bytes) (T : Torrent) (h : load H i
       ∧ dictGet root kInfo = some (.dict info)
       ∧ s ≤ c ∧ c ≤ inp.length ∧ slice inp s c = encode (.dict info)
       ∧ T.infoHash = H (slice inp s c) := by
-  sorry
+  obtain ⟨rks, rvs, s0, c0, iks, ivs, s, c, info, _, hcan, henc, hf, h1, h2, hsl, hs, rfl⟩ := load_ok_struct h
+  refine ⟨eraseDict rks rvs, eraseDict iks ivs, s, c, hcan, henc, ?_, h1, h2, hsl, rfl⟩
+  simp only [dictGet_eraseDict, hf, Option.map_some, erase]
 
 /-- independence: two loadable documents whose top-level `info` values are equal have equal info-hashes,
     whatever other top-level keys (and values of whatever size) they carry, before or after `info` -/
@@ -20,14 +22,50 @@ theorem C07_indep (H : Bytes → Bytes) (root₁ root₂ : List (Bytes × BVal))
     (h₁ : load H (encode (.dict root₁)) = .ok T₁) (h₂ : load H (encode (.dict root₂)) = .ok T₂)
     (c₁ : canon (.dict root₁) = true) (c₂ : canon (.dict root₂) = true)
     (hinfo : dictGet root₁ kInfo = dictGet root₂ kInfo) : T₁.infoHash = T₂.infoHash ∧ T₁.info = T₂.info := by
-  sorry
+  obtain ⟨v₁, hv₁, he₁, hs₁⟩ := (C10_iff H _ T₁).1 h₁
+  obtain ⟨v₂, hv₂, he₂, hs₂⟩ := (C10_iff H _ T₂).1 h₂
+  have e₁ := C08_encode_injective _ _ hv₁ c₁ he₁
+  have e₂ := C08_encode_injective _ _ hv₂ c₂ he₂
+  subst e₁ e₂
+  have : specLoad H (.dict root₁) = specLoad H (.dict root₂) := by
+    simp only [specLoad, hinfo]
+  rw [hs₁, hs₂] at this
+  cases this
+  exact ⟨rfl, rfl⟩
 
 /-- two-digit lowercase hexadecimal rendering: 2 characters per byte, alphabet 0-9a-f, injective -/
 theorem C07_hex_length (bs : Bytes) : (hex bs).length = 2 * bs.length := by
-  sorry
+  induction bs with
+  | nil => rfl
+  | cons b bs ih => simp only [hex, List.length_cons, ih]; omega
 theorem C07_hex_alphabet (bs : Bytes) : ∀ c ∈ hex bs, (48 ≤ c ∧ c ≤ 57) ∨ (97 ≤ c ∧ c ≤ 102) := by
-  sorry
+  induction bs with
+  | nil => intro c hc; cases hc
+  | cons b bs ih =>
+    intro c hc
+    simp only [hex, List.mem_cons] at hc
+    have hb := UInt8.toNat_lt b
+    rcases hc with rfl | rfl | hc
+    · exact hexDigit_range _ (by omega)
+    · exact hexDigit_range _ (by omega)
+    · exact ih c hc
 theorem C07_hex_injective (a b : Bytes) (h : hex a = hex b) : a = b := by
-  sorry
+  induction a generalizing b with
+  | nil =>
+    cases b with
+    | nil => rfl
+    | cons y ys => simp [hex] at h
+  | cons x xs ih =>
+    cases b with
+    | nil => simp [hex] at h
+    | cons y ys =>
+      simp only [hex, List.cons.injEq] at h
+      obtain ⟨h1, h2, h3⟩ := h
+      have hx := UInt8.toNat_lt x
+      have hy := UInt8.toNat_lt y
+      have e1 := hexDigit_inj _ (by omega) _ (by omega) h1
+      have e2 := hexDigit_inj _ (by omega) _ (by omega) h2
+      have : x = y := UInt8.toNat_inj.1 (by omega)
+      rw [this, ih ys h3]
 
 end TB
